@@ -521,6 +521,8 @@ def run_check(check, tier, seed):
     from . import srccov
     if os.environ.get('AHP_SRCCOV', '1') != '0':
         srccov.start(REPO)
+    from . import noise
+    quiet_call(noise.prelude, sys.modules.get(type(check).__module__))
     rng = random.Random(seed)
     findings = load_findings(prop_id)
     seen = set()
@@ -559,6 +561,7 @@ def run_check(check, tier, seed):
             nontrivial += 1
         for f in check.features(c.data):
             hist[f] = hist.get(f, 0) + 1
+        quiet_call(noise.between, i)
         if model_out is not None:
             impl_out = safe_impl(check, c.data)
             d = check.compare(model_out[i], impl_out, c.data)
